@@ -72,6 +72,14 @@ type Unit struct {
 	CallMap   map[string]string `json:"callmap"`
 	Imports   []string          `json:"imports"`
 	PtrFields bool              `json:"ptr_fields"` // *S fields of listed structs S become nested structures
+	// ForeignStructs: struct name -> file (relative to the repo) of ANOTHER package; a parameter of type pkg.S / *pkg.S
+	// with S listed here is translated like a listed struct of the unit (its int/bool fields only).
+	ForeignStructs map[string]string `json:"foreign_structs"`
+	// OpaqueParams: parameters of untranslatable types are dropped instead of rejected (any use of one in the
+	// translated body is still a hard error); LitSubset: a composite literal of a listed struct may set fields
+	// outside the translated subset (they are dropped — they are not int/bool fields).
+	OpaqueParams bool `json:"opaque_params"`
+	LitSubset    bool `json:"lit_subset"`
 }
 type Spec struct {
 	Units []Unit `json:"units"`
@@ -162,6 +170,13 @@ func (g *gen) leanType(e ast.Expr) string {
 		}
 	case *ast.StarExpr:
 		return g.leanType(x.X)
+	case *ast.SelectorExpr:
+		// pkg.S with S a listed foreign struct
+		if _, ok := g.unit.ForeignStructs[x.Sel.Name]; ok {
+			if _, ok := g.structs[x.Sel.Name]; ok {
+				return x.Sel.Name
+			}
+		}
 	case *ast.ArrayType:
 		return "Slice"
 	}
@@ -328,6 +343,17 @@ func (t *tr) expr(e ast.Expr) string {
 					kv, ok := el.(*ast.KeyValueExpr)
 					if !ok {
 						t.fail(e, "positional composite literal of %s", id.Name)
+					}
+					if t.g.unit.LitSubset {
+						known := false
+						for _, f := range si.fields {
+							if f.name == kv.Key.(*ast.Ident).Name {
+								known = true
+							}
+						}
+						if !known {
+							continue
+						}
 					}
 					given[kv.Key.(*ast.Ident).Name] = t.expr(kv.Value)
 				}
@@ -1191,8 +1217,11 @@ func (g *gen) translate(fs FuncSpec) string {
 				t.env["len_"+n.Name] = "Int"
 				params = append(params, "(len_"+n.Name+" : Int)")
 			case "", "Error":
-				if !t.prefix {
+				if !t.prefix && !g.unit.OpaqueParams {
 					t.fail(p, "parameter %s of unsupported type", n.Name)
+				}
+				if g.unit.OpaqueParams {
+					t.env[n.Name] = "Opaque"
 				}
 				// opaque parameter: unusable in guards (any use stops the prefix)
 			default:
@@ -1323,6 +1352,53 @@ func (g *gen) load(repo string) {
 	for _, s := range g.unit.Structs {
 		listed[s] = true
 		g.structs[s] = &structInfo{name: s}
+	}
+	// foreign structs: parsed from their own files, int/bool fields only
+	fnames := []string{}
+	for name := range g.unit.ForeignStructs {
+		fnames = append(fnames, name)
+	}
+	sort.Strings(fnames)
+	for _, name := range fnames {
+		ff, err := parser.ParseFile(g.fset, filepath.Join(repo, g.unit.ForeignStructs[name]), nil, 0)
+		if err != nil {
+			panic(unsupported{err.Error()})
+		}
+		si := &structInfo{name: name}
+		found := false
+		for _, d := range ff.Decls {
+			gd, ok := d.(*ast.GenDecl)
+			if !ok {
+				continue
+			}
+			for _, sp := range gd.Specs {
+				ts, ok := sp.(*ast.TypeSpec)
+				if !ok || ts.Name.Name != name {
+					continue
+				}
+				st, ok := ts.Type.(*ast.StructType)
+				if !ok {
+					continue
+				}
+				found = true
+				for _, fl := range st.Fields.List {
+					if id, ok := fl.Type.(*ast.Ident); ok && (intTypes[id.Name] || id.Name == "bool") {
+						ty := "Int"
+						if id.Name == "bool" {
+							ty = "Bool"
+						}
+						for _, n := range fl.Names {
+							si.fields = append(si.fields, fieldInfo{n.Name, ty})
+						}
+					}
+				}
+			}
+		}
+		if !found {
+			panic(unsupported{fmt.Sprintf("foreign struct %s not found in %s", name, g.unit.ForeignStructs[name])})
+		}
+		g.structs[name] = si
+		g.unit.Structs = append(g.unit.Structs, name)
 	}
 	for _, f := range g.files {
 		for _, d := range f.Decls {
